@@ -17,6 +17,7 @@ import (
 	"fmt"
 	"strings"
 	"sync"
+	"sync/atomic"
 	"testing"
 	"time"
 
@@ -336,6 +337,48 @@ func runC17(c c17Case) *Violation {
 			time.Sleep(5 * time.Millisecond)
 		}
 		return violf("no-redial-after-silence", "the peer fell silent right after connecting but no redial reached the proxy within %v", bound)
+	case "blackhole_midframe_steady":
+		// the peer falls silent in the middle of a message it is sending while the application keeps issuing calls more
+		// often than the timeout: a read that is in progress must not keep the connection alive by itself
+		if err := rig.Probe(cl, 3*time.Second); err != nil {
+			return nil
+		}
+		rig.Proxy.AddFault(&Fault{Conn: 0, Dir: "s2c", Frame: rig.Proxy.FrameCounts()[0]["s2c"], Pos: "mid", Kind: "blackhole"})
+		big := rig.Go(cl, "call", rig.Tok("big"), Plan{Size: 600000})
+		if rig.Proxy.WaitFault(3*time.Second) == nil {
+			return nil // the chosen frame was not the big response (a keepalive took its index): nothing to judge
+		}
+		t0 := time.Now()
+		bound := 5*T + 2*time.Second
+		stop := make(chan struct{})
+		go func() {
+			for {
+				select {
+				case <-stop:
+					return
+				case <-time.After(T / 4):
+				}
+				rig.Go(cl, "call", rig.Tok("steady"), Plan{})
+			}
+		}()
+		defer close(stop)
+		select {
+		case <-big.Done:
+		case <-time.After(bound):
+			return violf("silent-peer-not-detected", "the peer fell silent in the middle of a %d-byte response; with calls issued every %v the pending call had not failed after %v (timeout %v, ping %v)", 600000, T/4, bound, T, ping)
+		}
+		if big.Err == nil {
+			return nil // the whole response had already passed the proxy
+		}
+		deadline := t0.Add(bound)
+		for time.Now().Before(deadline) {
+			if len(rig.Proxy.Accepts()) >= 2 {
+				rec17MidframeJudged()
+				return nil
+			}
+			time.Sleep(5 * time.Millisecond)
+		}
+		return violf("no-redial-after-silence", "the peer fell silent in the middle of a message but no redial reached the proxy within %v", bound)
 	case "blackhole_pending", "blackhole_idle":
 		var ps []*Pending
 		if c.Scenario == "blackhole_pending" {
@@ -428,11 +471,20 @@ func c17NT(c c17Case) (bool, []string) {
 	return c.Factor > 1 || strings.HasPrefix(c.Scenario, "blackhole"), cl
 }
 
-const c17Rule = "client timeout 600-1500 ms with ping = timeout/4..timeout/8 or 30-48 % of the timeout, server ping off or timeout/40..timeout/2.2; scenarios: one call lasting 0.1-3 x timeout, a call plus a paced stream, idleness of 0.5-3 x timeout followed by a call, a paced stream lasting 1.5-3 x timeout, blackhole with three calls pending, blackhole while idle followed by a call, steady notifications, four senders of back-to-back notifications for at least 1.5 x timeout, a long call right after a redial, silence of 2-5 x timeout with redials refused followed by a healed path (client with a reverse handler), a 16 MiB request or response whose path pauses for three ping intervals of its writer (< timeout/2) in the middle of the transfer. Scenarios of the fixed grid run concurrently (each on its own server, proxy and client). Non-trivial = duration above the timeout, or a blackhole; distinct by descriptor hash"
+const c17Rule = "client timeout 600-1500 ms with ping = timeout/4..timeout/8 or 30-48 % of the timeout, server ping off or timeout/40..timeout/2.2; scenarios: one call lasting 0.1-3 x timeout, a call plus a paced stream, idleness of 0.5-3 x timeout followed by a call, a paced stream lasting 1.5-3 x timeout, blackhole with three calls pending, blackhole while idle followed by a call, blackhole in the middle of a 600 kB response while calls keep being issued, steady notifications, four senders of back-to-back notifications for at least 1.5 x timeout, a long call right after a redial, silence of 2-5 x timeout with redials refused followed by a healed path (client with a reverse handler), a 16 MiB request or response whose path pauses for three ping intervals of its writer (< timeout/2) in the middle of the transfer. Scenarios of the fixed grid run concurrently (each on its own server, proxy and client). Non-trivial = duration above the timeout, or a blackhole; distinct by descriptor hash"
+
+var c17MidframeJudged int64
+
+func rec17MidframeJudged() { atomic.AddInt64(&c17MidframeJudged, 1) }
 
 func TestC17(t *testing.T) {
 	rec := NewRec("C17", c17Rule)
 	defer rec.Finish(t)
+	defer func() {
+		if atomic.LoadInt64(&c17MidframeJudged) > 0 {
+			rec.Class("blackhole_midframe_judged", atomic.LoadInt64(&c17MidframeJudged))
+		}
+	}()
 	rec.RequireClass("server_pings_much_more_often", "ping_above_quarter_timeout", "scenario_notification_storm", "scenario_long_blackhole_then_heal", "scenario_slow_reader_big_transfer", "scenario_long_call_after_redial", "scenario_steady_notifications", "scenario_blackhole_fresh_steady", "scenario_long_call", "scenario_idle_then_call", "scenario_stream", "scenario_mixed", "scenario_blackhole_pending", "scenario_blackhole_idle", "server_ping_off", "server_ping_on", "longer_than_timeout")
 	var mu sync.Mutex
 	var firstV *Violation
@@ -456,7 +508,7 @@ func TestC17(t *testing.T) {
 		var cases []c17Case
 		k := 0
 		seed := envInt("VERIF_SEED", 1)
-		for _, sc := range []string{"long_call", "mixed", "idle_then_call", "stream", "blackhole_pending", "blackhole_idle", "blackhole_fresh_steady", "long_call_after_redial", "steady_notifications", "long_blackhole_then_heal", "slow_reader_big_transfer", "notification_storm"} {
+		for _, sc := range []string{"long_call", "mixed", "idle_then_call", "stream", "blackhole_pending", "blackhole_idle", "blackhole_fresh_steady", "blackhole_midframe_steady", "long_call_after_redial", "steady_notifications", "long_blackhole_then_heal", "slow_reader_big_transfer", "notification_storm"} {
 			for _, f := range []float64{0.3, 1.6, 3.0} {
 				for _, spOn := range []bool{false, true} {
 					k++
